@@ -189,3 +189,35 @@ def check_generated(formula: str, used: set):
     if req != used:
         out.append(("required-set", f"{formula!r}: required_variables {sorted(req)}, the formula reads the columns {sorted(used)}"))
     return out + check_formula(formula)
+
+
+def check_live_spec():
+    """One unmaterialized ModelSpec, read / edited in place / read again: its required variables follow its (mutable) formula,
+    and the set handed out is the caller's to change."""
+    from formulaic import Formula, ModelSpec
+    from formulaic.parser.types import Factor, Term
+
+    out = []
+    for f, extra in (("a + b", "c"), ("log(a) + A + y", "b"), ("center(a):A", "`x y`")):
+        spec = ModelSpec(formula=Formula(f))
+        target = spec.formula
+        before = {str(v) for v in spec.required_variables}
+        name = extra.strip("`")
+        new_term = Term([Factor(name, eval_method="lookup")])
+        target.append(new_term)
+        after = {str(v) for v in spec.required_variables}
+        if after != before | {name}:
+            out.append(("stale-after-append", f"{f!r}: after appending the term {extra} to the spec's formula its required variables are {sorted(after)}, expected {sorted(before | {name})}"))
+        target.remove(new_term)
+        again = {str(v) for v in spec.required_variables}
+        if again != before:
+            out.append(("stale-after-remove", f"{f!r}: after removing the term again the required variables are {sorted(again)}, expected {sorted(before)}"))
+        handed = spec.required_variables
+        try:
+            handed.clear()
+        except Exception:
+            pass
+        final = {str(v) for v in spec.required_variables}
+        if final != before:
+            out.append(("aliased-result", f"{f!r}: clearing the set returned by required_variables changed later reads to {sorted(final)}"))
+    return out
